@@ -213,7 +213,8 @@ def evaluate(group_names, prop, tier, res, timeout_s=None, only_quick=None):
             hs = [h for h in hs if any(h.name == o or (o.endswith('*') and h.name.startswith(o[:-1])) for o in only_quick)]
         if not hs:
             continue
-        results, cerr, wall, cmd = run_harnesses(ws, pkg, [h.name for h in hs], timeout_s, modpath={h.name: h.group.modpath for h in hs})
+        # the thorough tier contains harnesses of 5-8 GB each: fewer of them side by side (62 GB machine)
+        results, cerr, wall, cmd = run_harnesses(ws, pkg, [h.name for h in hs], timeout_s, jobs=(min(JOBS, 8) if tier == 'thorough' else JOBS), modpath={h.name: h.group.modpath for h in hs})
         res.checker_cmds.append(re.sub(r'(--harness \S+ ?)+', '--harness <%d harnesses> ' % len(hs), cmd))
         if cerr:
             res.undecide('kani: the harness modules no longer compile against the current tree (%s):\n%s' % (pkg, cerr[:1500]))
